@@ -499,6 +499,7 @@ class Report:
                     json.dump({"property": self.prop_id, "key": key, "what": v["what"],
                                "replay": v["replay"]}, f, indent=1)
                 lines.append("VIOLATION property=%s replay=%s" % (self.prop_id, path))
+                log("violation %s: %s" % (key, str(v["what"])[:400].replace("\n", " ")))
             exit_code = 1
         elif self.broken:
             path = os.path.join(VERIF, "replays", "%s-%s-broken.json" % (self.prop_id, self.tier))
@@ -507,6 +508,8 @@ class Report:
                            "note": "a proof obligation or the model/implementation correspondence no longer "
                                    "checks; the search found no input on which the property fails"}, f, indent=1)
             lines.append("VIOLATION property=%s replay=%s no-failing-input-found" % (self.prop_id, path))
+            for b_ in self.broken[:3]:
+                log("broken: %s %s" % (b_.get("what"), str(b_.get("detail"))[:400].replace("\n", " ")))
             exit_code = 1
         cov = dict(self.coverage)
         cov["obligations"] = self.obligations
